@@ -1,11 +1,12 @@
 """C01 -- well-formed (baseline, params) or an exception.  DESIGN.md section 4 / C01."""
+import os
 import random
 import warnings
 
 import numpy as np
 
 from . import methods as M
-from .common import coqbool, hexf
+from .common import COQ, coqbool, hexf
 
 PROP = 'C01'
 
@@ -364,6 +365,37 @@ def oracle(ctx, budget):
     return count
 
 
+def schema_vs_source(ctx):
+    """The hand-written schema that drives the trace validation (budget = max_iter + off) must agree
+    with the loop bounds the translator reads from the current source (gen/GenLoops.v)."""
+    import re
+    ob = 'schema-vs-source:trace-validation budgets equal the translated range bounds'
+    ctx.obligations.append(ob)
+    path = os.path.join(COQ, 'gen', 'GenLoops.v')
+    if not os.path.exists(path):
+        ctx.broke(ob, 'gen/GenLoops.v missing (translator refused)')
+        return
+    src = {}
+    for m in re.finditer(r'\("([\w.]+)", \{\| l_start := \(?(-?\d+)\)?; l_stop := \(?(-?\d+)\)?;', open(path).read()):
+        src[m.group(1)] = int(m.group(3)) - int(m.group(2))
+    bad = []
+    n = 0
+    for two_d, schema in ((False, M.SCHEMA_1D), (True, M.SCHEMA_2D)):
+        for name, sch in schema.items():
+            keys = [k for k in src if k.split('.')[-1] == name and k.startswith('two_d.') == two_d]
+            if len(keys) != 1:
+                bad.append(f'{name}({"2d" if two_d else "1d"}): {len(keys)} translated loops')
+                continue
+            n += 1
+            if src[keys[0]] != sch['budget']:
+                bad.append(f'{keys[0]}: source range gives budget max_iter{src[keys[0]]:+d}, schema says {sch["budget"]:+d}')
+    if bad:
+        ctx.broke(ob, '; '.join(bad[:8]))
+    else:
+        ctx.discharged.append(ob)
+        ctx.note(f'{n} trace-validated methods have the budget the translator reads from the source; {len(src)} single-loop methods in gen/GenLoops.v')
+
+
 def run(ctx):
     ctx.rule = ('trace validation: every single-loop iterative method (1-D and 2-D) on the (max_iter, tol) grid '
                 '{0,1,2,3,5} x {0, mid, inf}; the recorded differences and early-exit flags of a never-stopping run feed the '
@@ -372,12 +404,16 @@ def run(ctx):
                 '95 methods x data kinds x dtypes x layouts x sorted/unsorted; non-trivial = call returned with a non-empty record '
                 '(trace) / call returned (oracle) / ndim>=2 (shapes)')
     ctx.trusted += [
-        'that each method body is an instance of the skeleton is tied by trace validation (not proved); nested-loop methods '
-        '(brpls, goldindec, jbcd), beads, ria, dietrich are covered by the direct oracle only',
+        'the loop bookkeeping of every single-loop method (range bounds, np.empty size, store index, prefix slice, early-exit '
+        'decrement, order store/test) is translated from the source on every run (tools/gen_loops.py, fail-closed) and proved to '
+        'refine the skeleton; what the oracles solve/reweight/diff compute is tied by trace validation (not proved); nested-loop '
+        'methods (brpls, pspline_brpls, goldindec) and beads are covered by the direct oracle only',
         'finite output for noisy data is sampled (LAPACK / conditioning), not proved',
     ]
     ctx.gate()
+    ctx.translate(['GenLoops'])
     ok = ctx.build_props(extra=['C01/Trace.vo'])
+    schema_vs_source(ctx)
     shape_correspondence(ctx)
     trace_validation(ctx)
     budget = 1 if (ok and not ctx.broken and ctx.tier == 'quick') else 3
